@@ -116,7 +116,7 @@ CHECKS = {
             "params": {"quick": {"L": 1}, "thorough": {"L": 2}},
             "max_paths": {"quick": 60000, "thorough": 600000},
             "timeout": {"quick": "10m", "thorough": "60m"},
-            "covers": {"VerifC14Injective": ["same-inputs", "different-inputs"]},
+            "covers": {"VerifC14Injective": ["same-inputs", "different-inputs", "compound-writer-key"]},
         }, {
             "pkg": ODB, "funcs": ["VerifC14Reuse"],
             "covers": {"VerifC14Reuse": ["created-with-reused-values", "opened-with-the-same-options", "opened-another-type-with-reused-options"]},
@@ -133,6 +133,7 @@ CHECKS = {
             "covers": {"VerifC14AddressRoundTrip": ["parsed", "refused"]},
         }],
         "assumptions": [
+            "compound writer key (VerifC14Injective): one key of the second write list may consist of two key-shaped segments around a symbolic separator byte, so that a list is compared with lists whose keys joined by any separator spell the same text",
             "stale handles and dropped databases (VerifC18StaleHandle, event log / key-value / document store): a handle is closed, the database reopened on the same instance, the stale handle closed again once or twice: no error, its CloseFunc is not run again, the live handle stays registered, writable, and is closed by the Close of the instance with nothing left running; after Drop a local-only open is refused and a new Create is accepted with the same address, on the same instance or a new one over the same directory",
             "spellings: the printed address with a trailing slash, opened with Create:true as the typed helpers do, opens the SAME database or is refused, and parses to the same root and path",
             "the reused options value is also used to OPEN a database of another type and write list (created with fresh values): the opened store has the recorded type and write list",
@@ -171,10 +172,14 @@ CHECKS = {
             "timeout": {"quick": "10m", "thorough": "60m"},
             "covers": {"VerifC02RestartRace": ["raced", "healed"]},
         }, {
+            "pkg": BS, "funcs": ["VerifC02ThirdBranch"],
+            "covers": {"VerifC02ThirdBranch": ["merged-in-two-batches", "fresh-replica-joined"]},
+        }, {
             "pkg": ODB, "funcs": ["VerifC02ThreeWay"],
             "covers": {"VerifC02ThreeWay": ["c-reconnected", "all-connected"]},
         }],
         "assumptions": [
+            "three concurrent branches (VerifC02ThirdBranch): writers a, b, c write while partitioned; a merges the heads of b and c in two separate batches (either order, optional own write in between); a fresh replica joins a and receives the heads a persisted: it must hold every acknowledged write a holds",
             "three replicas (VerifC02ThreeWay): two writers diverge behind cut links (1..2 writes each); the third replica's two links heal back to back, so both head exchanges are queued on its direct channel at once; it holds every write of both; then the writers' link heals and all three agree",
             "closed system of two replicas inside one interpreter, each a real BaseStore with replication enabled over stub pubsub / direct channel and its own block store (blocks of the connected peer are fetchable)",
             "fault plan (symbolic): STEPS steps, each a write on a or b whose announcement (the payload the real handleEventWrite published on the topic) is delivered to the other side or lost, or a restart of a (Close, fresh store over the same cache and blocks, real Load)",
@@ -328,10 +333,14 @@ CHECKS = {
             "pkg": BS, "funcs": ["VerifC09Starved"],
             "covers": {"VerifC09Starved": ["databases-stuck", "other-database-replicated"]},
         }, {
+            "pkg": ODB, "funcs": ["VerifC09SameName"],
+            "covers": {"VerifC09SameName": ["written", "isolated"]},
+        }, {
             "pkg": ODB, "funcs": ["VerifC09SameRoot"],
             "covers": {"VerifC09SameRoot": ["exchanged-on-heal", "beta-closed"]},
         }],
         "assumptions": [
+            "same name, another manifest (VerifC09SameName): an event log and a key-value store both named users (created in either order) and a control database on one instance, a peer on every topic; the event log is written 1..2 times: only its own topic carries announcements, every message names the database whose heads it carries, the other stores stay empty with an untouched status",
             "starvation (VerifC09Starved): 1..D databases of the process are each handed 1, 33 or K heads whose parents no provider answers for (pending fetches for good); another database is then handed an ordinary head and must replicate it, announce it and show its own status; schedule-free path classes, no symbolic data",
             "shared manifest root (VerifC09SameRoot): /orbitdb/<root>/alpha and /orbitdb/<root>/beta (hand-formed address) open on two instances; alpha written behind a partition and exchanged on heal: alpha's entries reach alpha, beta stays empty with status 0/0; closing beta does not stop alpha's exchanges",
             "messages a store builds (VerifC09LateJoin): a peer opens database A, A is written 1..3 more times (announcements), then the peer opens database B: every publication and direct message carries only heads of the database it names",
@@ -376,8 +385,12 @@ CHECKS = {
         }, {
             "pkg": ODB, "funcs": ["VerifC05SharedOptions"],
             "covers": {"VerifC05SharedOptions": ["options-value-reused", "restarted"]},
+        }, {
+            "pkg": ODB, "funcs": ["VerifC05WriteAfterClose"],
+            "covers": {"VerifC05WriteAfterClose": ["store-closed", "instance-closed", "reloaded"]},
         }],
         "assumptions": [
+            "writes around a close (VerifC05WriteAfterClose, real instance over the disk model): 1..2 writes, the store or the instance is closed, 1..2 more Add calls on the stale handle; each call either fails or is acknowledged, and every acknowledged one is listed after the instance is closed and a new instance reopens and loads the directory (the disk model accepts a put after close where leveldb refuses it: both satisfy the clause)",
             "two databases of one instance (VerifC05SharedOptions): created with fresh option values or with ONE reused value, both written, clean instance close, new instance on the same directory: each database reloads exactly its own acknowledged entries",
             "write during a merge (VerifC05WriteDuringMerge): a local write starts at ANY visible step of the replication of a remote batch of 1..2 entries and runs until it blocks; the disk image at its acknowledgement (crash) and after a clean close both reload to a log holding it (and, after the clean close, the replicated batch)",
             "identity across a restart that designates the SAME directory by another string (a symbolic link natively, an alias in the disk model): same identity, the peer can still write",
